@@ -305,7 +305,10 @@ impl<'a> Interp<'a> {
     // ------------------------------------------------------------ reference resolution
 
     pub fn cref(&self, c: CRef) -> String {
-        if c.0 == 254 {
+        if c.0 == 253 && !self.st.order.is_empty() {
+            // the first contract's address in upper case: the same bytes, but not the text the chain uses
+            self.st.order[0].to_uppercase()
+        } else if c.0 == 254 || c.0 == 253 {
             "Not/An Address".to_string()
         } else if c.0 == 255 || self.st.order.is_empty() {
             self.fx.nowhere.clone()
